@@ -260,6 +260,19 @@ func (s *scn) genSpecs() {
 			s.specs[i] = spec{exit: "sig", stopBlocks: s.r.Bool()}
 		}
 		s.specs[0].stateable = true
+	case "slowstop":
+		// the Stop() phase of the shutdown lasts longer than the configured shutdown timeout
+		s.shutdownShort = true
+		s.specs = make([]spec, 2+s.r.Intn(2))
+		for i := range s.specs {
+			s.specs[i] = spec{exit: "sig"}
+		}
+		k := 1 + s.r.Intn(len(s.specs)-1) // not the first: runnables before it are still to be stopped
+		s.specs[k].heldStop = true
+		if s.r.Bool() {
+			s.specs[0].exit = "never"
+			s.specs[0].heldRun = true
+		}
 	case "finalstate":
 		// a state monitor that lags behind its runnable when shutdown stores the final state
 		s.specs = make([]spec, 1+s.r.Intn(2))
@@ -767,6 +780,42 @@ func (s *scn) preludeFinalState() {
 	s.snap()
 }
 
+// preludeSlowStop: shutdown is triggered; one Stop() is held for longer than the shutdown timeout
+// (the timeout only bounds the wait AFTER the Stop() calls: contexts stay live, nothing times out
+// during the Stop phase, and a runnable that never returns is abandoned one timeout after it).
+func (s *scn) preludeSlowStop() {
+	k := -1
+	for i, sp := range s.specs {
+		if sp.heldStop {
+			k = i
+		}
+	}
+	s.shutdownTriggered = true
+	if s.r.Bool() {
+		s.apiCall("Shutdown", s.sup.Shutdown)
+	} else {
+		s.apiCall("Sig term", func() { s.sup.SendSignal(syscall.SIGTERM) })
+	}
+	if !s.rec.WaitFor(fmt.Sprintf("StopCall %d", k), 3*time.Second) {
+		return
+	}
+	s.quiesce()
+	time.Sleep(200 * time.Millisecond) // the shutdown timeout is 120 ms
+	s.quiesce()
+	s.snap()
+	s.stopReleased[k] = true
+	s.cores[k].StopRelease <- struct{}{}
+	select {
+	case <-s.runDone:
+	case <-time.After(3 * time.Second):
+		// real-time verdict (the untimed model cannot give it): every Stop() has returned, the shutdown
+		// timeout is 120 ms, and Run() is still not back 3 s later
+		s.rec.Emit("Overdue Run() not returned 3s after the last Stop() returned (shutdown timeout 120ms)")
+	}
+	s.quiesce()
+	s.snap()
+}
+
 // preludeLateSub: the runnable leaves its initial state before the monitor obtains the state channel,
 // then goes back to the state startRunnable recorded.
 func (s *scn) preludeLateSub() {
@@ -888,6 +937,9 @@ func (s *scn) run() {
 	}
 	if s.family == "finalstate" {
 		s.preludeFinalState()
+	}
+	if s.family == "slowstop" {
+		s.preludeSlowStop()
 	}
 	if s.family == "latesub" {
 		s.preludeLateSub()
@@ -1045,7 +1097,7 @@ func main() {
 		child(*seed, *family)
 		return
 	}
-	fams := []string{"mixed", "startup", "timeout", "state", "reload", "sdsender", "big", "gatefail", "finalstate", "errs", "earlyshutdown", "latesub", "subclose", "gatecancel", "subentry"}
+	fams := []string{"mixed", "startup", "timeout", "state", "reload", "sdsender", "big", "gatefail", "finalstate", "errs", "earlyshutdown", "latesub", "subclose", "gatecancel", "subentry", "slowstop"}
 	type job struct {
 		seed uint64
 		fam  string
